@@ -37,7 +37,17 @@ func gen(g *hx.Gen) {
 	r := g.Rng
 	all := gx.Reps
 	emit := func(gr *gx.G, nvar int) {
-		g.Emit(gx.CaseLine(gr, levelOf(gr), gx.Variants(r, gr.N, nvar+1, all)[1:]))
+		toks := gx.Variants(r, gr.N, nvar+1, all)[1:]
+		// one or two of the further representations (prov.go) under random relabellings, and
+		// for one case in four the hold / disturb / repeat sequence on one of the variants
+		for k := 0; k < 1+r.Intn(2); k++ {
+			p := r.Perm(gr.N)
+			toks = append(toks, gx.TokString(extraReps[r.Intn(len(extraReps))], p))
+		}
+		if r.Chance(1, 4) {
+			toks = append(toks, fmt.Sprintf("Z:%d", r.Intn(len(toks)+1)))
+		}
+		g.Emit(gx.CaseLine(gr, levelOf(gr), toks))
 	}
 	// the same graph under a random relabelling as the base graph of a second case: the model
 	// line is computed for the base graph, so this puts random labellings (not only the
@@ -105,6 +115,8 @@ func gen(g *hx.Gen) {
 	emitRelabelled(gx.Cube(), 4)
 	emitRelabelled(gx.Multipartite([]int{3, 3}), 4)
 	emitRelabelled(gx.Multipartite([]int{2, 5}), 4)
+
+	genBig(g)
 
 	maxN := g.Pick(10, 11)
 	count := g.Pick(900, 14000)
